@@ -26,8 +26,14 @@ class C13(InterpProp):
     clock_mover = True
 
     def knobs(self, rnd, tier):
-        return gen.Knobs(time_preds=0.75, p_guard=0.8, p_internal=0.3, p_eventless=0.3, clock_moves=0.2,
-                         max_states=rnd.choice([5, 9, 13]), trans_per_owner=2.0)
+        kn = gen.Knobs(time_preds=0.75, p_guard=0.8, p_internal=0.3, p_eventless=0.3, clock_moves=0.2,
+                       max_states=rnd.choice([5, 9, 13]), trans_per_owner=2.0)
+        if rnd.random() < 0.35:
+            # time predicates in contracts too (state postconditions / invariants, transition contracts)
+            kn.contracts = 0.5
+            kn.time_conds = 0.6
+            kn.cflags = 0
+        return kn
 
     def make_ops(self, rnd, knobs, sc):
         ops = gen.gen_ops(rnd, knobs, self.n_ops)
@@ -70,6 +76,8 @@ class C13(InterpProp):
                     stores = True
             if stores and seen != t:
                 res.violations.append('step %d: code saw time=%r, step time is %r' % (k, seen, t))
+        self.check_selection(info, res)
+        self.check_conds(info, res)
         for e in r['eff']:
             if e[0] != 'guard' or e[3] is None:
                 continue
@@ -89,3 +97,70 @@ class C13(InterpProp):
             if t - d == ref:
                 res.features.add('boundary')
                 res.nontrivial = True
+
+    # ---- what fires, with the time predicates evaluated by the oracle itself ------------------------
+    @staticmethod
+    def time_pred(src_text):
+        m = re.fullmatch(r'(after|idle)\((\d+)\)', src_text or '')
+        return (m.group(1), int(m.group(2))) if m else None
+
+    def check_selection(self, info, res):
+        r, gh, sc, trans = info['r'], info['ghost'], info['sc'], info['trans']
+        if not gh.initialized or gh.final or r['outcome'] == 'error':
+            return
+        t = info['clock']
+        gt = oracles.guard_table(r['eff'])
+        cfg = set(info['cfg0'])
+        pending = gh.next(t)
+        pend_name = pending['ev']['ev'] if pending else None
+        fired = sorted(oracles.step_transitions(r['step'])) if r['outcome'] == 'step' else []
+
+        def gv(default):
+            def f(i, x):
+                tp = self.time_pred(trans[i].guard)
+                if tp is not None:
+                    ref = (gh.entered_at if tp[0] == 'after' else gh.idle_at).get(trans[i].source)
+                    if ref is not None:
+                        return t - tp[1] >= ref
+                return gt.get((i, x), default) is True if (i, x) in gt else default
+            return f
+        exps = [sorted(oracles.fires_spec(sc, trans, cfg, pend_name, gv(d))) for d in (False, True)]
+        if fired not in exps and exps[0] == exps[1]:
+            res.violations.append('step %d: fired %s at time %d; with after()/idle() of each source state computed from '
+                                  'its own last entry / last transition the documented semantics fires %s'
+                                  % (info['k'], fired, t, exps[0]))
+
+    # ---- time predicates in contracts, replayed along the log of the step ----------------------------
+    def check_conds(self, info, res):
+        r, gh, sc, trans = info['r'], info['ghost'], info['sc'], info['trans']
+        if not gh.initialized:
+            return
+        t = info['clock']
+        entered, idle = dict(gh.entered_at), dict(gh.idle_at)
+        firing = None          # transition whose action ran and whose idle time is not yet written
+        for e in r['eff']:
+            if firing is not None and not (e[0] == 'cond' and e[2] == ['t', firing]):
+                idle[trans[firing].source] = t
+                firing = None
+            if e[0] == 'entry':
+                # (recorded right after the entry code, before anything else is evaluated)
+                entered[e[1]] = t
+                idle[e[1]] = t
+            elif e[0] == 'action':
+                firing = e[1]
+            elif e[0] == 'cond' and e[5] is not None:
+                obj = trans[e[2][1]] if e[2][0] == 't' else sc.state_for(e[2][1])
+                lst = {'pre': obj.preconditions, 'post': obj.postconditions, 'inv': obj.invariants}[e[1]]
+                tp = self.time_pred(lst[e[3]])
+                if tp is None:
+                    continue
+                owner = obj.source if e[2][0] == 't' else obj.name
+                ref = (entered if tp[0] == 'after' else idle).get(owner)
+                if ref is None:
+                    continue
+                res.features.add('cond-' + tp[0])
+                if (t - tp[1] >= ref) != e[5]:
+                    res.violations.append('step %d: %s condition %s of %s evaluated %s at time %d; %s was %s at %d'
+                                          % (info['k'], e[1], lst[e[3]], e[2], e[5], t, owner,
+                                             'last entered' if tp[0] == 'after' else 'last entered / fired', ref))
+                    return
